@@ -505,7 +505,7 @@ pub fn meta_all_image(seed: u64) -> Vec<u8> {
         }
     }
     ops.push(Op::End);
-    let sc = MuxScenario { cfg: MovieCfg { major: *b"isom", minor: 512, compat: vec![*b"isom", *b"mp41"], timescale: 1000 }, ops, start_pos: 0, io: IoKnobs::plain(), preexisting: 0, fault: None };
+    let sc = MuxScenario { cfg: MovieCfg { major: *b"isom", minor: 512, compat: vec![*b"isom", *b"mp41"], timescale: 1000 }, ops, start_pos: 0, io: IoKnobs::plain(), preexisting: 0, fault: None, fault_len: 0, fault_api: None };
     let mut img = mux_bytes(&sc);
     let opens = |b: &[u8]| mp4::Mp4Reader::read_header(Cursor::new(b.to_vec()), b.len() as u64).is_ok();
     for v in [6u64, 7, 5, 0, 2, 8, 4, 9, 6] {
@@ -921,7 +921,7 @@ pub fn frag_image(seed: u64) -> (Vec<u8>, usize) {
         start_pos: 0,
         io: IoKnobs::plain(),
         preexisting: 0,
-        fault: None,
+        fault: None, fault_len: 0, fault_api: None,
     };
     let base = mux_bytes(&sc);
     let nodes = walk(&base);
@@ -1589,7 +1589,7 @@ pub fn length_chain_image(seed: u64) -> Vec<u8> {
         start_pos: 0,
         io: IoKnobs::plain(),
         preexisting: 0,
-        fault: None,
+        fault: None, fault_len: 0, fault_api: None,
     };
     let mut base = mux_bytes(&sc);
     if hevc {
@@ -1682,7 +1682,7 @@ pub fn hop_chain_image(seed: u64) -> Vec<u8> {
         start_pos: 0,
         io: IoKnobs::plain(),
         preexisting: 0,
-        fault: None,
+        fault: None, fault_len: 0, fault_api: None,
     };
     let base = mux_bytes(&sc);
     let n_units = (2 * t + 150) as u16;
@@ -1756,7 +1756,7 @@ pub fn descriptor_chain_image(seed: u64) -> Vec<u8> {
         start_pos: 0,
         io: IoKnobs::plain(),
         preexisting: 0,
-        fault: None,
+        fault: None, fault_len: 0, fault_api: None,
     };
     let mut base = mux_bytes(&sc);
     // 1. give the ES descriptor a 4-byte length field (3 bytes longer)
